@@ -163,9 +163,17 @@ async def on_ready_history():
     firings = [ScheduledTask(task_name='report_eu', labels={'region': 'eu', 'dry_run': True}, args=['mon'], kwargs={}, cron='* * * * *', schedule_id='daily-report'),
                ScheduledTask(task_name='report_eu', labels={'region': 'eu', 'dry_run': True}, args=['tue'], kwargs={}, cron='* * * * *', schedule_id='daily-report'),
                ScheduledTask(task_name='report_us', labels={'region': 'us'}, args=['wed'], kwargs={}, cron='* * * * *', schedule_id='daily-report')]
-    for t in firings: await sch.on_ready(sch.sources[0], t)
+    # label names that collide with something on the way: attributes of a log record (with the taskiq loggers enabled at DEBUG), `self`, `cls`, `task_name`
+    firings.append(ScheduledTask(task_name='report_us', labels={'module': 'billing', 'name': 'n', 'self': '/jobs/42', 'args': 'a', 'task_name': 'x'}, args=['thu'], kwargs={'self_': 1}, cron='* * * * *', schedule_id='other'))
+    lg = logging.getLogger('taskiq'); old_level = lg.level; nh = logging.NullHandler(); lg.addHandler(nh); lg.setLevel(logging.DEBUG); logging.disable(logging.NOTSET); died = []
+    try:
+        for t in firings:
+            try: await sch.on_ready(sch.sources[0], t)
+            except BaseException as e: died.append(f"{type(e).__name__}: {str(e)[:80]}")
+    finally: logging.disable(logging.CRITICAL); lg.setLevel(old_level); lg.removeHandler(nh)
     want = [(t.task_name, {**{k: str(v) for k, v in t.labels.items()}, 'schedule_id': t.schedule_id}) for t in firings]
-    return [] if sent == want else [f"C16: three firings under one schedule_id (the schedule was replaced before the third): sent (task name, labels) {sent}, the schedules that fired say {want}"]
+    if died: return [f"C16: four firings (the last one with labels named module / name / self / args / task_name, taskiq loggers at DEBUG): on_ready raised {died}; sent {len(sent)} of 4 messages"]
+    return [] if sent == want else [f"C16: firings under one schedule_id (the schedule was replaced before the third; a fourth schedule has labels named like log-record attributes / self): sent (task name, labels) {sent}, the schedules that fired say {want}"]
 
 async def kiq_case(asyncs, fail_at):
     from taskiq import InMemoryBroker, TaskiqMiddleware
